@@ -117,21 +117,21 @@ type conn41 struct {
 }
 
 type env41 struct {
-	t      *rapid.T
-	rec    *ev.Rec
-	srv    *server
-	th     *core.Thread
-	users  []user41 // model of the rows of the users table
+	t     *rapid.T
+	rec   *ev.Rec
+	srv   *server
+	th    *core.Thread
+	users []user41 // model of the rows of the users table
 	// usersTable: the users table exists
 	usersTable bool
 	// usersAppeared: the database went from no users to users while a
 	// connection accepted earlier was open
 	usersAppeared bool
 	frag          frag
-	A      *conn41 // authenticated party
-	authed []*conn41
-	U      []*conn41 // unauthenticated connections
-	all    []*conn41 // every connection made in this case (closed at its end)
+	A             *conn41 // authenticated party
+	authed        []*conn41
+	U             []*conn41 // unauthenticated connections
+	all           []*conn41 // every connection made in this case (closed at its end)
 	// model
 	validTokens  map[string]bool
 	spentTokens  []string
